@@ -216,6 +216,10 @@ def run(ctx):
                     ("move", "/d1", "/d1/sub", True, "plain"), ("copy", "/d2", "/d2", True, False, "enc")])
     # the two recorded deviations, reproduced on every run (known_findings.txt)
     seqs.insert(1, [("mkcol", "/sub"), ("put", "/d1", b"D1"), ("copy", "/sub", "/d1", True, True, "plain")])
+    # collections three levels deep: DELETE, COPY and MOVE must reach every member (recursion into sub-collections)
+    deep = [("mkcol", "/t"), ("mkcol", "/t/u"), ("mkcol", "/t/u/v"), ("put", "/t/f", b"F"), ("put", "/t/u/g", b"G"), ("put", "/t/u/v/h", b"H")]
+    seqs.insert(1, deep + [("copy", "/t", "/c", True, False, "plain"), ("del", "/t"), ("move", "/c", "/m", True, "plain"), ("del", "/m/u"), ("del", "/m")])
+    seqs.insert(1, deep + [("mkcol", "/e"), ("put", "/e/old", b"O"), ("move", "/t/u", "/w", True, "enc"), ("copy", "/w", "/t/u2", False, False, "dots"), ("del", "/t")])
     seqs.insert(2, [("put", "/x.txt", b"X"), ("mkcol", "/d2"), ("copy", "/x.txt", "/d2", True, False, "plain")])
     seqs.insert(3, [("mkcol", "/sub"), ("mkcol", "/d2"), ("mkcol", "/d2/b"), ("move", "/sub", "/d2", True, "plain")])
     # a file sent onto its own parent collection (fix 8258ef5: used to answer 204 and lose the file)
